@@ -1,0 +1,13 @@
+//go:build verif
+
+package hash
+
+// VerifWrite, when set (verification builds only), observes every item that
+// is absorbed by a Hash through WriteAny: its domain and its encoded bytes.
+var VerifWrite func(domain string, data []byte)
+
+func verifWrite(domain string, data []byte) {
+	if f := VerifWrite; f != nil {
+		f(domain, data)
+	}
+}
